@@ -193,10 +193,44 @@ enum Expect {
     ProtoErr(&'static str),
 }
 
+
+/// A frame body shaped like an `ls` response (length-prefixed entries, final newline) with entry lengths
+/// that are off by a little, missing newlines and a cut tail; or a tiny body of small bytes.
+fn broken_ls_body() -> Vec<u8> {
+    if choose(3) == 0 {
+        let n = 1 + choose(4);
+        return (0..n).map(|_| [0u8, 1, 2, 3, 4, 10, 47, 0x80, 0xff][choose(9)]).collect();
+    }
+    let mut body = vec![];
+    for _ in 0..1 + choose(4) {
+        let name: &[u8] = [&b"/a\n"[..], b"/bc\n", b"\n", b"/a", b"x\n"][choose(5)];
+        let declared = (name.len() as i64 + [-2i64, -1, 0, 0, 1, 2, 3][choose(7)]).max(0) as u64;
+        varint(declared as usize, &mut body);
+        body.extend_from_slice(name);
+    }
+    if choose(3) != 0 {
+        body.push(b'\n');
+    }
+    if choose(3) == 0 && !body.is_empty() {
+        body.truncate(choose(body.len()) + 1);
+    }
+    body
+}
+
 fn hostile_stream_for_listener() -> (Vec<u8>, Expect, &'static str) {
     let mut s = vec![];
-    match choose(9) {
+    match choose(10) {
         0 => (bytes(small(0, 80)), Expect::Any, "random"),
+        9 => {
+            if choose(2) == 0 {
+                frame(HEADER, &mut s);
+            }
+            frame(&broken_ls_body(), &mut s);
+            if choose(2) == 0 {
+                frame(&broken_ls_body(), &mut s);
+            }
+            (s, Expect::Any, "broken-ls-entries")
+        }
         1 => {
             frame(HEADER, &mut s);
             s.extend_from_slice(&[0x80 | choose(128) as u8, 0x80 | choose(128) as u8, choose(128) as u8]);
@@ -304,10 +338,20 @@ fn hostile_dialer() -> SimResult {
     let v = if lazy { Version::V1Lazy } else { Version::V1 };
     let mut s = vec![];
     frame(HEADER, &mut s);
-    let (expect, kind): (Expect, &'static str) = match choose(8) {
+    let (expect, kind): (Expect, &'static str) = match choose(9) {
         0 => {
             s = bytes(small(0, 80));
             (Expect::Any, "random")
+        }
+        8 => {
+            if choose(4) == 0 {
+                s.clear();
+            }
+            frame(&broken_ls_body(), &mut s);
+            if choose(2) == 0 {
+                frame(&broken_ls_body(), &mut s);
+            }
+            (Expect::Any, "broken-ls-entries")
         }
         1 | 2 => {
             // ls-style answer with 1000 / 1001 protocols
